@@ -76,7 +76,11 @@ def _polar_cuts():
         return [("ring", "a^2 + b^2 == 1 - (R_y(theta) u)_z^2", xs[0], 1 - tz * tz),
                 ("lemma", "0 <= a^2 + b^2 <= 1", and_(xs[0] >= 0, xs[0] <= 1), True,
                  [tz, Num.of(frame.locals["a"]), Num.of(frame.locals["b"])])]
-    return {("precession_equatorial", "sqrt", 1): cut, ("precession_newcomb", "sqrt", 1): cut}
+    def cut_ecl(it, frame, xs):
+        a_, b_, c_ = (Num.of(frame.locals[k]) for k in ("a", "b", "c"))
+        return [("ring", "a^2 + b^2 == 1 - c^2 (a, b, c are a rotated unit vector)", xs[0], 1 - c_ * c_),
+                ("lemma", "0 <= a^2 + b^2 <= 1", and_(xs[0] >= 0, xs[0] <= 1), True, [c_, a_, b_])]
+    return {("precession_equatorial", "sqrt", 1): cut, ("precession_newcomb", "sqrt", 1): cut, ("precession_ecliptical", "sqrt", 1): cut_ecl}
 
 
 def angle(ctx, name, lo=-360, hi=360, closed=False):
@@ -137,28 +141,27 @@ def h_equ(ctx, fn):
     ta, td = (al + mu_a * yrs - al1) / 360, (de + mu_d * yrs - de1) / 360
     ctx.vc("proper motion: the rotated direction is (alpha + mu_a * years, delta + mu_d * years) (mod 360), linear in time",
            and_(ta == floor_(ta), td == floor_(td)))
-    (A, B), = ctx.uf_terms("atan2")[-1:]
+    calls = ctx.uf_terms("atan2")
+    (A, B) = calls[-2]
+    (C, S) = calls[-1]
     target = matvec(rot_y(radians_(theta)), unitvec(al1 + zeta, de1))
     ctx.identity("atan2 numerator == (R_y(theta) . u)_y,  u = unitvec(alpha1 + zeta, delta1)", A, target[1])
     ctx.identity("atan2 denominator == (R_y(theta) . u)_x", B, target[0])
     pi = pi_()
     t = (atan2_(A, B) * 180 / pi + z - olon) / 360
     ctx.vc("right ascension == degrees(atan2(A, B)) + z (mod 360)", t == floor_(t))
-    polar = not ctx.uf_terms("asin")               # the path taken for a (corrected) declination above 85 degrees
-    ctx.vc("polar branch taken exactly for declinations above 85 degrees", (de1 > 85) if polar else (de1 <= 85))
-    if not polar:
-        (C,), = ctx.uf_terms("asin")[-1:]
-        ctx.identity("asin argument == (R_y(theta) . u)_z", C, target[2])
-        ctx.vc("declination == degrees(asin(C)), in [-90, 90]",
-               and_(olat * pi == asin_(C) * 180, olat >= -90, olat <= 90))
-    else:
-        # close to the pole the declination must come from cos(dec') = sqrt(A^2 + B^2)
-        rr = A * A + B * B
-        ctx.identity("A^2 + B^2 + C^2 == 1 (the rotated vector stays a unit vector)", rr + target[2] * target[2], 1)
-        ctx.vc("polar branch: declination == degrees(acos(sqrt(A^2 + B^2)))", olat * pi == acos_(sqrt_(rr)) * 180)
+    # the declination comes from the arctangent of (z component, length of the (x, y) projection) of the rotated unit vector:
+    # accurate also when the result is next to a pole (the asin / acos forms were not)
+    ctx.identity("declination arctangent: numerator == (R_y(theta) . u)_z", C, target[2])
+    rr = A * A + B * B
+    ctx.vc("declination arctangent: denominator == sqrt(A^2 + B^2)", S == sqrt_(rr))
+    ctx.identity("A^2 + B^2 + C^2 == 1 (the rotated vector stays a unit vector)", rr + target[2] * target[2], 1)
+    ctx.vc("declination == degrees(atan2(C, sqrt(A^2 + B^2))), in [-90, 90]",
+           and_(olat * pi == atan2_(C, S) * 180, olat >= -90, olat <= 90))
 
 
-@P.harness("precession_equatorial/canary", contracts=CONTRACTS, cuts=_capture_cuts, expect="refuted", crosscheck=0)
+@P.harness("precession_equatorial/canary", contracts=CONTRACTS, cuts=_capture_cuts, uf_cuts=_polar_cuts, axioms=("sqrt",),
+           expect="refuted", crosscheck=0, branch_timeout_ms=500)
 def h_equ_canary(ctx):
     e1, j1 = epoch(ctx, "jde1")
     e2, j2 = epoch(ctx, "jde2")
@@ -170,7 +173,7 @@ def h_equ_canary(ctx):
         return
     args = ctx.it.info["dms2deg_args"]
     zeta, z, theta = (a_[3] for a_ in args[-3:])
-    (A, B), = ctx.uf_terms("atan2")[-1:]
+    (A, B) = ctx.uf_terms("atan2")[-2]            # the right-ascension arctangent (the last one is the declination's)
     al1, de1 = ctx.it.info["start_angles"]
     target = matvec(rot_y(-radians_(theta)), unitvec(al1 + zeta, de1))
     ctx.identity("canary: theta with the wrong sign", B, target[0])
@@ -178,7 +181,8 @@ def h_equ_canary(ctx):
 
 # ---- zero interval, there-and-back: statements about the polynomials the code uses
 @P.harness("precession_equatorial/parameters", cases=[dict(fn="precession_equatorial"), dict(fn="precession_newcomb")],
-           contracts=CONTRACTS, axioms=("pi", "inverse-range", "trig-range", "pythagoras", "sqrt"), crosscheck=0, timeout=60)
+           contracts=CONTRACTS, cuts=_capture_cuts, uf_cuts=_polar_cuts, axioms=("pi", "inverse-range", "trig-range", "pythagoras", "sqrt"),
+           crosscheck=0, timeout=60, branch_timeout_ms=500)
 def h_params(ctx, fn):
     if ctx.native:
         return
@@ -223,8 +227,8 @@ def h_matrix(ctx):
 
 
 # ---- ecliptical precession
-@P.harness("precession_ecliptical/is-a-rotation", contracts=CONTRACTS, cuts=_capture_cuts,
-           axioms=("pi", "inverse-range", "trig-range", "pythagoras"), timeout=60,
+@P.harness("precession_ecliptical/is-a-rotation", contracts=CONTRACTS, cuts=_capture_cuts, uf_cuts=_polar_cuts,
+           axioms=("pi", "inverse-range", "trig-range", "pythagoras", "sqrt"), timeout=60, branch_timeout_ms=500,
            functions=[COORD + "precession_ecliptical"], crosscheck=0)
 def h_ecl(ctx):
     e1, j1 = epoch(ctx, "jde1")
@@ -246,16 +250,20 @@ def h_ecl(ctx):
     pie = ctx.it.info["pie_used"]            # pie += 174.876384 is an Angle addition (reduced again)
     tp = (pie0 + Fraction(174876384, 10 ** 6) - pie) / 360
     ctx.vc("Pi used == Pi polynomial + 174.876384 (mod 360)", tp == floor_(tp))
-    (A, B), = ctx.uf_terms("atan2")[-1:]
-    (C,), = ctx.uf_terms("asin")[-1:]
+    calls = ctx.uf_terms("atan2")
+    (A, B) = calls[-2]
+    (C, S) = calls[-1]
     target = matvec(rot_x(-radians_(eta)), unitvec(pie - lam1, bet1))
     ctx.identity("atan2 numerator == (R_x(-eta) . u)_y,  u = unitvec(Pi - lambda, beta)", A, target[1])
     ctx.identity("atan2 denominator == (R_x(-eta) . u)_x", B, target[0])
-    ctx.identity("asin argument == (R_x(-eta) . u)_z", C, target[2])
+    ctx.identity("latitude arctangent: numerator == (R_x(-eta) . u)_z", C, target[2])
+    ctx.vc("latitude arctangent: denominator == sqrt(A^2 + B^2)", S == sqrt_(A * A + B * B))
+    ctx.identity("A^2 + B^2 + C^2 == 1 (the rotated vector stays a unit vector)", A * A + B * B + target[2] * target[2], 1)
     pi = pi_()
     t = (p + pie - atan2_(A, B) * 180 / pi - olon) / 360
     ctx.vc("longitude == p + Pi - degrees(atan2(A, B)) (mod 360)", t == floor_(t))
-    ctx.vc("latitude == degrees(asin(C)), in [-90, 90]", and_(olat * pi == asin_(C) * 180, olat >= -90, olat <= 90))
+    ctx.vc("latitude == degrees(atan2(C, sqrt(A^2 + B^2))), in [-90, 90]",
+           and_(olat * pi == atan2_(C, S) * 180, olat >= -90, olat <= 90))
     ctx.vc("zero interval: eta = p = 0 (identity)", implies(j1 == j2, and_(eta_poly == 0, p_poly == 0)))
 
 
@@ -348,8 +356,10 @@ def b_prec(rng, tier):
         zz = 1 - (2 * i + 1) / n
         dirs.append(((360.0 * i / g) % 360.0, math.degrees(math.asin(zz))))
     for i in range(npole):
-        dirs.append((rng.uniform(0, 360), 90 - rng.uniform(0, 5)))
-        dirs.append((rng.uniform(0, 360), -90 + rng.uniform(0, 5)))
+        # within 5 degrees of either pole: uniformly, and (every other one) at distances from 1e-6 degree upwards
+        dist = rng.uniform(0, 5) if i % 2 else 10 ** rng.uniform(-6, 0.7)
+        dirs.append((rng.uniform(0, 360), 90 - dist))
+        dirs.append((rng.uniform(0, 360), -90 + dist))
     J = 2451545.0
     for i, (lon, lat) in enumerate(dirs):
         c1 = rng.uniform(-5, 5)
